@@ -32,10 +32,13 @@ Definition adjok (x : frame) (r : list frame) : bool :=
   match pollfam x with Some f => match r with y :: _ => iscont f y | [] => false end | None => true end.
 Fixpoint pollall (st : list frame) : bool := match st with [] => true | x :: r => adjok x r && pollall r end.
 
+(* number of times the result of f has been delivered (ghost log) *)
+Fixpoint nres (f : nat) (l : list gev) : nat :=
+  match l with [] => 0 | GResolve f' _ :: r => (if bool_decide (f' = f) then 1 else 0) + nres f r | _ :: r => nres f r end.
 Record Inv_fut (s : state) : Prop := {
-  if_one : forall f, tot f s <= 1;
+  if_one : forall f, nres f s.(log) + tot f s <= 1;
   if_ret : forall f, (getf s f).(res) = FReturned -> tot f s = 0;
-  if_fresh : forall f, length s.(futs) <= f -> tot f s = 0;
+  if_fresh : forall f, length s.(futs) <= f -> nres f s.(log) + tot f s = 0;
   if_poll : forall c st, stacks s !! c = Some st -> pollall st = true;
 }.
 
@@ -78,3 +81,115 @@ Lemma jobs_setf s f c : jobs (setf s f c) = jobs s. Proof. done. Qed.
 Lemma getf_futs (s' s : state) f : s'.(futs) = s.(futs) -> getf s' f = getf s f.
 Proof. intros H. unfold getf. by rewrite H. Qed.
 Lemma getf_addlog' s l f : getf (addlog s l) f = getf s f. Proof. done. Qed.
+
+Section Pres.
+  Context (T : ftables).
+  Lemma step_fut_inv s a s' : Inv_fut s -> step T s a = Some s' -> Inv_fut s'.
+  Proof.
+    intros [I1 I2 I3 I4] Hstep. step_split Hstep Ea Est.
+    all: try discriminate Hstep.
+    all: injection Hstep as <-.
+    all: pose proof (stacks_lookup _ _ _ Ea) as Hst; rewrite Est in Hst.
+    all: pose proof (I4 _ _ Hst) as Hpo.
+    all: pop_cont_split.
+    all: try match goal with k : kont |- _ => destruct k end.
+    all: split.
+    (* pollall *)
+    all: try (lazymatch goal with |- forall c st, stacks _ !! c = Some st -> pollall st = true =>
+              eapply (fut_poll_update s _ a _ _ I4 Hst); [solve_stacks|]; intros _;
+              first [ apply pollall_chain; [first [apply chain_wake_frames|apply chain_opt_wake]|]; cbn in Hpo |- *
+                    | cbn in Hpo |- * ];
+              repeat match goal with H : _ && _ = true |- _ => apply andb_true_iff in H as [? ?] end;
+              rewrite ?andb_true_iff; repeat split; try done; try (by apply bool_decide_eq_true) end).
+    all: cbn [pollall adjok pollfam iscont] in Hpo; repeat match goal with H : _ && _ = true |- _ => apply andb_true_iff in H as [? ?] end.
+    all: repeat match goal with H : bool_decide (_ = _) = true |- _ => apply bool_decide_eq_true in H; try subst end.
+    all: intros fq; specialize (I1 fq); pose proof (I2 fq) as I2'; pose proof (I3 fq) as I3'.
+    all: match goal with |- context [tot ?f ?s'] =>
+           pose proof (np_upd (wf f) s s' a _ _ Hst ltac:(solve_stacks)) as Hu;
+           unfold tot in *; (let n := fresh "cnt" in set (n := np (wf f) s') in *; clearbody n) end.
+    all: cbn [cntf wf wj ret_ready ret_pending] in Hu; rewrite ?cntf_app, ?cntf_opt_wake, ?cntf_wake_frames in Hu by done; cbn [cntf wf wj ret_ready ret_pending] in Hu.
+    all: try (match goal with E : jobs _ = _ :: _ |- _ => rewrite E in * end).
+    all: cbn -[cntj length getf setf "++" nres]; rewrite ?jobs_setf; cbn -[cntj length getf setf "++" nres]; rewrite ?cntj_app; cbn [cntj wj nres app] in *
+    all: repeat match goal with H : context [wj ?f ?j] |- _ => destruct (wj f j) end.
+    (* clause 1 *)
+    all: try (lazymatch goal with |- _ <= 1 => repeat case_bool_decide; simplify_eq; lia end).
+    (* clause 3: fresh futures *)
+    all: try (lazymatch goal with |- length _ <= _ -> _ =>
+              intros Hlen; cbn -[length app setf] in Hlen; rewrite ?futs_len_setf in Hlen; cbn -[length app] in Hlen; rewrite ?app_length in Hlen; cbn [length] in Hlen;
+              assert (Hx : length (futs s) <= fq) by lia; specialize (I3' Hx); repeat case_bool_decide; simplify_eq; lia end).
+    (* clause 2, result cells untouched *)
+    all: try (lazymatch goal with |- res (getf ?s' _) = FReturned -> _ =>
+              intros Hr; rewrite (getf_futs s' s fq eq_refl) in Hr; specialize (I2' Hr); repeat case_bool_decide; simplify_eq; lia end).
+    (* allocation of fresh future cells *)
+    all: try (lazymatch goal with |- _ <= 1 => repeat case_bool_decide; simplify_eq;
+              try (assert (Hx : length (futs s) <= length (futs s)) by lia; specialize (I3' Hx)); lia end).
+    all: try (lazymatch goal with |- res (getf ?s' _) = FReturned -> _ =>
+              intros Hr; apply (res_alloc s s' _ fq eq_refl ltac:(repeat constructor)) in Hr; specialize (I2' Hr);
+              repeat case_bool_decide; simplify_eq; try lia; unfold getf in Hr; rewrite lookup_ge_None_2 in Hr by lia; discriminate Hr end).
+    (* result cells written *)
+    all: try (lazymatch goal with |- res (getf ?s' _) = FReturned -> _ =>
+              intros Hr; match type of Hr with context [setf ?s0 ?f ?c] =>
+                rewrite (getf_futs s' (setf s0 f c) fq eq_refl) in Hr; apply res_setf in Hr as [[-> Hr]|Hr] end;
+              [ cbn in Hr; first [discriminate Hr | idtac]
+              | rewrite ?getf_addlog' in Hr; first [specialize (I2' Hr)|idtac] ] end).
+    all: try (repeat case_bool_decide; simplify_eq; lia).
+    all: try (match goal with Hnc : nocont ?r, H : match ?r with [] => false | _ :: _ => _ end = true |- _ =>
+              exfalso; destruct r as [|[] ?]; try done; cbn in H; discriminate end).
+    all: try (match type of Hr with res (getf ?s1 ?f1) = _ => rewrite (getf_futs s1 s f1 eq_refl) in Hr end).
+    all: try (pose proof (I2 _ Hr) as I2f).
+    all: try (repeat case_bool_decide; simplify_eq; first [lia|congruence]).
+  Qed.
+End Pres.
+
+Lemma init_fut scripts npool nev : Inv_fut (init scripts npool nev).
+Proof.
+  split.
+  - intros f. unfold tot. rewrite np_init by done. cbn. lia.
+  - intros f _. unfold tot. by rewrite np_init.
+  - intros f _. unfold tot. rewrite np_init by done. cbn. lia.
+  - intros c st Hc. unfold stacks, init in Hc; cbn in Hc. rewrite list_lookup_fmap in Hc.
+    destruct ((((fun sc => mk_actor [FTop sc]) <$> scripts) ++ replicate npool (mk_actor [FPIdle])) !! c) as [ac|] eqn:E; [|done].
+    cbn in Hc. injection Hc as <-. apply elem_of_list_lookup_2 in E. apply elem_of_app in E as [E|E].
+    + by apply elem_of_list_fmap in E as (sc & -> & _).
+    + by apply elem_of_replicate in E as [-> _].
+Qed.
+
+(* a consumer frame for f in some stack makes tot f positive *)
+Lemma tot_pos s c st fr f : stacks s !! c = Some st -> fr ∈ st -> wf f fr = true -> tot f s >= 1.
+Proof.
+  intros Hc Hin Hw. unfold tot. assert (np (wf f) s > 0); [|lia]. apply npl_pos. exists c, st. split; [done|].
+  apply cntf_pos. by exists fr.
+Qed.
+
+(* the code's panics are unreachable *)
+Lemma fut_no_panic T s a : own_cond T -> Inv_own s -> Inv_fut s -> would_panic T s a = false.
+Proof.
+  intros HT HO [I1 I2 I3 I4]. unfold would_panic. destruct (actors s !! a) as [ac|] eqn:Ea; [|done].
+  destruct (stack ac) as [|fr rest] eqn:Est; [done|].
+  pose proof (stacks_lookup _ _ _ Ea) as Hst. rewrite Est in Hst. pose proof (I4 _ _ Hst) as Hp.
+  assert (Hret : forall f fr', fr' ∈ fr :: rest -> wf f fr' = true -> (getf s f).(res) <> FReturned).
+  { intros f fr' Hin Hw Hr. pose proof (tot_pos s a _ fr' f Hst Hin Hw). rewrite (I2 f Hr) in H. lia. }
+  assert (Hcont : forall f, pollfam fr = Some f -> (getf s f).(res) <> FReturned).
+  { intros f Hf. cbn in Hp. apply andb_true_iff in Hp as [Hp _]. unfold adjok in Hp. rewrite Hf in Hp.
+    destruct rest as [|y r]; [done|]. apply (Hret f y); [right; left|]. destruct y; try done. }
+  destruct fr; try done.
+  - (* FD1 *) destruct (t_desync (ft_base T) (qs s)) as [q p] eqn:Ep. cbn. destruct p; try done.
+    apply (oc_desync _ HT) in Ep as [_ Hq]. by destruct (io_nopanic _ HO); apply Hq.
+  - (* FFS1 *) destruct (res (getf s f)) eqn:E; try done.
+    exfalso. apply (Hret f (FFS1 f)); [left|cbn; by apply bool_decide_eq_true|done].
+  - (* FSFpoll *) destruct (res (getf s f)) eqn:E; try done; [|by apply (Hcont f eq_refl) in E].
+    destruct (t_poll T f (qs s)) as [q p] eqn:Ep. cbn. destruct p; try done.
+    apply (oc_poll _ HT) in Ep as [_ Hq]. by destruct (io_nopanic _ HO).
+  - destruct (res (getf s f)) eqn:E; try done. by apply (Hcont f eq_refl) in E.
+  - destruct (res (getf s f)) eqn:E; try done. by apply (Hcont f eq_refl) in E.
+  - (* FS1 *) destruct (t_sync (ft_base T) (qs s) (bool_decide (jobs s = []))) as [q p] eqn:Ep. cbn. destruct p; try done.
+    apply (oc_sync _ HT) in Ep as [_ Hq]. by destruct (io_nopanic _ HO).
+  - (* FClosure *) destruct tk as [f|]; [|done]. destruct (res (getf s f)) eqn:E; try done.
+    exfalso. apply (Hret f (FClosure op (Some f))); [left|cbn; by apply bool_decide_eq_true|done].
+  - (* FROpend *) destruct (t_roj_pend T (qs s)) eqn:E; [done|]. exfalso.
+    destruct (runner_working s a _ HO Hst) as [H1 H2]; [cbn; lia|]. destruct (oc_roj_pend _ HT _ H1 H2) as (? & H3 & _). congruence.
+  - (* FROcheck *) destruct (t_roj_park T (qs s)) eqn:E; try done. exfalso.
+    apply (oc_roj_park _ HT (qs s)); [|done]. apply (runner_owned s a _ HO Hst). cbn; lia.
+  - (* FJob *) destruct j as [| |op c [f|]]; try done. destruct (res (getf s f)) eqn:E; try done.
+    exfalso. apply (Hret f (FJob (JSync op c (Some f)) w k)); [left|cbn; by apply bool_decide_eq_true|done].
+Qed.
